@@ -83,7 +83,7 @@ func (r *Rng) CellOf(k colKind) any {
 	case kFloat:
 		return Pick(r, []float64{0, 1, 2.5, -0.5, 3, 1e3, 0.25, -2})
 	case kStr:
-		return Pick(r, []string{"a", "b", "", "x|y", "a:b", "nil", "<nil>", "zz", " a", "B"})
+		return Pick(r, []string{"a", "b", "", "x|y", "a:b", "nil", "<nil>", "zz", " a", "B", "a ", "b  "})
 	case kBool:
 		return r.Bool()
 	case kNumStr:
